@@ -224,6 +224,20 @@ def abs_init(interp, func, args, kwargs):
     self_ = args[0]
     src = args[1] if len(args) > 1 else kwargs.get('s', '')
     settings = tuple(args[2:])
+    if sym.is_str(src) and len(settings) == 1 and isinstance(settings[0], ab.AbsSettings):
+        # AnsiString(text, other.ansi_settings_at(i)): contract chain N1 (the list reports view(i)), F2 (setting objects
+        # pass the scrubber unchanged), F3 (applied over the whole text on an empty table)
+        c = ctx()
+        cond = esc_free(src)
+        if cond is not True and not c.truth(cond):
+            return NotImplemented
+        ab.install(c)
+        n = sym.s_len(src)
+        nt = ab.T_FILL(settings[0].term, sym.Z(n))
+        c.assume(ab.WFP(nt, sym.Z(n)))
+        self_.attrs['_s'] = src
+        self_.attrs['_fmts'] = ab.AbsTbl(nt)
+        return None
     op = _operand(interp, src) if isinstance(src, PObj) else None
     if op is None:
         return NotImplemented
@@ -240,6 +254,19 @@ def abs_init(interp, func, args, kwargs):
         m = interp.p.find_member('AnsiString', 'apply_formatting')
         interp.invoke(m, [self_, settings], {})
     return None
+
+
+def abs_settings_at(interp, func, args, kwargs):
+    """Contract of ansi_settings_at (group N1): [] outside 0..len-1, else the settings active on that character in order"""
+    self_, idx = args[0], args[1] if len(args) > 1 else kwargs['idx']
+    if not isinstance(self_, PObj) or not isinstance(self_.attrs.get('_fmts'), ab.AbsTbl):
+        return NotImplemented
+    c = ctx()
+    ab.install(c)
+    n = sym.s_len(self_.attrs['_s'])
+    if c.truth(sym.b_and(sym.i_cmp('>=', idx, 0), sym.i_cmp('<', idx, n))):
+        return ab.AbsSettings(ab.VT(self_.attrs['_fmts'].term, sym.Z(idx)))
+    return PList([])
 
 
 def _norm_range(self_, start, end):
@@ -388,6 +415,7 @@ MODULAR['ABS'] = {
     'AnsiString.__getitem__': abs_getitem,
     'AnsiString.__iadd__': abs_iadd,
     'AnsiString.__init__': abs_init,
+    'AnsiString.ansi_settings_at': abs_settings_at,
     'AnsiString.apply_formatting': abs_apply,
     'AnsiString.remove_formatting': abs_remove,
     'AnsiString.to_str': abs_to_str,
